@@ -307,12 +307,12 @@ func (t *Thread) processIncomingInterest(packet *defn.Pkt) {
 				return
 			}
 
+			// The consumer chooses the face, but the packet still leaves through the outgoing
+			// Interest pipeline: not back out of the face it arrived on, not with HopLimit=0 to a
+			// non-local face, with an out-record (so that the nonce becomes dead and the Interest
+			// is counted) and with this forwarder's PIT token instead of the downstream's
 			core.LogTrace(t, "NextHopFaceId is set for Interest ", packet.Name, " - dispatching directly to face")
-			nextHopFace.SendPacket(dispatch.OutPkt{
-				Pkt:      packet,
-				PitToken: packet.PitToken, // TODO: ??
-				InFace:   packet.IncomingFaceID,
-			})
+			t.processOutgoingInterest(packet, pitEntry, nextHopFace.FaceID(), incomingFace.FaceID())
 		} else {
 			core.LogInfo(t, "Non-existent face specified in NextHopFaceId for Interest ", packet.Name, " - DROP")
 		}
